@@ -320,7 +320,7 @@ func c13HistCfg(tier string) []*histCfg {
 func init() {
 	mc.Register(&mc.Check{
 		Prop:        "C13",
-		Rule:        "sequential: every history over {CreateScope(provider|scope, cancellable | inherited | cancellable-derived-from-the-parent-scope's-context ctx), Get, GetKeyed, GetGroup, Close(scope|provider), cancel} up to the depth bound, each operation compared with the closed-means-closed model; overlapping: every schedule (preemption bound 2 quick / 3 thorough) of one closer || one in-flight operation, then retries on every closed object (also with the late instance's own Close failing); two overlapping cascades (Close(parent) || Close(provider), Close(parent) x2, Close(child) || Close(provider)) followed by use of every scope by the thread whose Close returned, judged on stamps: once a Close has returned, every operation starting later on that scope - and, for a provider Close or a scope Close that did not overlap another Close of its chain, on every descendant - fails with the disposed error. A disposable whose Close waits for the other goroutine's in-flight operation (in the scope, its parent, or a singleton) x closers x operations: no deadlock. An outcome is the canonical observation string of one execution. Two providers built from one collection: every history to depth 4 (5) over {use p1, use p2, close p1, close p2}: a closed provider refuses use, the other one stays fully usable.",
+		Rule:        "sequential: every history over {CreateScope(provider|scope, cancellable | inherited | cancellable-derived-from-the-parent-scope's-context ctx), Get, GetKeyed, GetGroup, Close(scope|provider), cancel} up to the depth bound, each operation compared with the closed-means-closed model; overlapping: every schedule (preemption bound 2 quick / 3 thorough) of one closer || one in-flight operation, then retries on every closed object (also with the late instance's own Close failing); two overlapping cascades (Close(parent) || Close(provider), Close(parent) x2, Close(child) || Close(provider)) followed by use of every scope by the thread whose Close returned, judged on stamps: once a Close has returned, every operation starting later on that scope - and, for a provider Close or a scope Close that did not overlap another Close of its chain, on every descendant - fails with the disposed error. A disposable whose Close waits for the other goroutine's in-flight operation (in the scope, its parent, or a singleton) x closers x operations: no deadlock. In-flight constructions with optional / group fields on disposables: never a half-initialised result. An outcome is the canonical observation string of one execution. Two providers built from one collection: every history to depth 4 (5) over {use p1, use p2, close p1, close p2}: a closed provider refuses use, the other one stays fully usable.",
 		Assume:      []string{"sequentially consistent interleavings at synchronisation granularity (justified by the race detector's silence)", "context cancellation is observed by the watcher goroutine as a scheduler-visible blocking operation"},
 		MinOutcomes: 10,
 		Jobs: func(tier string) []mc.Job {
